@@ -333,7 +333,18 @@ def main_check(check, argv=None):
         lst = sorted(agg['viol'][cls], key=lambda x: len(json.dumps(x[2])))
         vseed, msg, plan = lst[0]
         ok, info = gate(check, plan, cls)
+        tries = 1
+        while not ok and tries < min(3, len(lst)):   # another instance of the class may be the reproducible one
+            vseed, msg, plan = lst[tries]
+            ok, info = gate(check, plan, cls)
+            tries += 1
         if not ok:
+            if cls.startswith('hang') or 'rc=-9' in msg or 'wall-timeout' in msg:
+                # a kill by a CPU/wall budget that does not happen again on the same input is the machine, not the code
+                print('note: %d run(s) of class %s hit a kill budget once and completed on re-run (not reproducible: '
+                      'not a verdict): seed %d' % (len(lst), cls, vseed))
+                agg['stats']['transient_kills_not_reproduced'] = agg['stats'].get('transient_kills_not_reproduced', 0) + len(lst)
+                continue
             print('INFRA: violation gate failed for class %s seed %d: %s' % (cls, vseed, info))
             print('   message was: %s' % msg)
             rc = max(rc, 2)
